@@ -74,6 +74,13 @@ static inline void forwarder_reset(struct sink_forwarder *f, void *dst) { f->m_d
 struct tcp_socket;
 extern size_t g_open_throwing_calls;
 #define tcp_open_throwing(self, proto) do { g_open_throwing_calls++; (self)->m_open = 1; (self)->m_is_v4 = ((proto) == 4); } while (0)
+extern size_t g_read_calls;
+/* m_incoming_queue.push_back(pkt): ghost monitor of in-order delivery - the packet appended to the stream is exactly
+ * the next expected sequence number (g_in_expected mirrors the stream position) */
+extern uint64_t g_in_expected; extern size_t g_in_appended;
+#define tcp_incoming_append(self, pkt) do { \
+    __CPROVER_assert((pkt).seq_nr == g_in_expected, "[C05.inorder] a packet is appended to the receive stream only when it carries the next expected sequence number"); \
+    g_in_expected = g_in_expected + 1; g_in_appended = g_in_appended + 1; pl_push_back(&(self)->m_incoming_queue, (pkt)); } while (0)
 /* route::replace_last(forwarder) */
 extern size_t g_replace_last_calls; extern struct sink_forwarder *g_replace_last_fwd;
 static inline void route_replace_last(route_t *r, struct sink_forwarder *f)
